@@ -593,6 +593,105 @@ func genWebRtcHandlerFacts(sb *strings.Builder, q func(string) string) error {
 	}
 	emit("`peerIDStr := …` in DialPeer (peerID is its parameter)", "dialPeerIDStr", v)
 
+	// ---- the block list in DialPeer / GetPeerDialer ----
+	// leading guards: every `if cond { return <all nil / false> }` among the top-level statements before
+	// the first statement that is neither a definition nor such a guard
+	leadingGuards := func(fd *ast.FuncDecl) ([]string, error) {
+		var out []string
+		for _, st := range fd.Body.List {
+			switch v := st.(type) {
+			case *ast.AssignStmt, *ast.DeclStmt:
+				continue
+			case *ast.IfStmt:
+				if v.Init != nil || v.Else != nil || len(v.Body.List) != 1 {
+					return out, nil
+				}
+				rs, ok := v.Body.List[0].(*ast.ReturnStmt)
+				if !ok {
+					return out, nil
+				}
+				var res []string
+				for _, r := range rs.Results {
+					x := exprString(wf.fset, r)
+					if x != "nil" && x != "false" {
+						return out, nil // not a refusal (e.g. the AllPeers branch of GetPeerDialer returns a dialer)
+					}
+					res = append(res, x)
+				}
+				out = append(out, exprString(wf.fset, v.Cond)+" => return "+strings.Join(res, ", "))
+			default:
+				return out, nil
+			}
+		}
+		return out, nil
+	}
+	dg, err := leadingGuards(dp)
+	if err != nil {
+		return err
+	}
+	emitL("leading guards of DialPeer that return without a link and without an error", "dialGuards", dg)
+	_, gpd := wrtcMethod(files, "WebRTC", "GetPeerDialer")
+	if gpd == nil {
+		return fmt.Errorf("webrtc.go: GetPeerDialer not found")
+	}
+	pg, err := leadingGuards(gpd)
+	if err != nil {
+		return err
+	}
+	if len(pg) > 1 {
+		pg = pg[:1] // the `AllPeers` branch returns a dialer, later ifs are not refusals
+	}
+	emitL("first leading guard of GetPeerDialer that returns no dialer", "peerDialerGuards", pg)
+	gv, err := one("GetPeerDialer: peerIDStr", wrtcDefs(wf.fset, gpd.Body)["peerIDStr"])
+	if err != nil {
+		return err
+	}
+	emit("`peerIDStr := …` in GetPeerDialer", "peerDialerPeerIDStr", gv)
+
+	// ---- Resolve's deferred clean-up of incomingSessions ----
+	var cleanup []string
+	nDefer := 0
+	for _, st := range res.Body.List {
+		ds, ok := st.(*ast.DeferStmt)
+		if !ok {
+			continue
+		}
+		nDefer++
+		fl, ok := ds.Call.Fun.(*ast.FuncLit)
+		if !ok {
+			return fmt.Errorf("Resolve: deferred call is not a function literal")
+		}
+		ast.Inspect(fl.Body, func(x ast.Node) bool {
+			switch v := x.(type) {
+			case *ast.IfStmt:
+				if v.Else != nil {
+					cleanup = append(cleanup, "if-else "+exprString(hf.fset, v.Cond))
+				} else {
+					cleanup = append(cleanup, "if "+exprString(hf.fset, v.Cond))
+				}
+			case *ast.ExprStmt:
+				if c, ok := v.X.(*ast.CallExpr); ok {
+					if _, isLit := c.Args, false; !isLit {
+						hasLit := false
+						for _, a := range c.Args {
+							if _, ok := a.(*ast.FuncLit); ok {
+								hasLit = true
+							}
+						}
+						if !hasLit {
+							cleanup = append(cleanup, exprString(hf.fset, c))
+						}
+					}
+				}
+			}
+			return true
+		})
+	}
+	if nDefer != 1 {
+		return fmt.Errorf("Resolve: expected one deferred clean-up, found %d", nDefer)
+	}
+	emitL("Resolve's deferred function: its conditions and calls, in source order (HoldLock wrapper elided)", "resolveCleanup", cleanup)
+
 	sb.WriteString("\n/-! ### session.go: `executeXmitSignal`, `execute`, `executeLink` -/\n\n")
 	sf, xs := wrtcMethod(files, "sessionTracker", "executeXmitSignal")
 	if xs == nil {
@@ -706,5 +805,15 @@ func genWebRtcHandlerFacts(sb *strings.Builder, q func(string) string) error {
 		return err
 	}
 	emit("`remoteAddr := …`", "executeLinkRemoteAddr", ra)
+	nl := wrtcCalls(sf.fset, el.Body, "transport_quic.NewLink")
+	if len(nl) != 1 {
+		return fmt.Errorf("executeLink: expected one transport_quic.NewLink call, found %d", len(nl))
+	}
+	emitL("arguments of `transport_quic.NewLink` in executeLink", "newLinkArgs", wrtcArgs(sf.fset, nl[0]))
+	la, err := one("executeLink: localAddr", eld["localAddr"])
+	if err != nil {
+		return err
+	}
+	emit("`localAddr := …`", "executeLinkLocalAddr", la)
 	return nil
 }
